@@ -293,6 +293,18 @@ def _run_history(hist, rec):
                 finally:
                     npr.randint = saved
                 rec.case(key, (hist[:step + 1], 'boot'), outcome='boot')
+            elif op == 'initll':
+                # the likelihood "at the initial values" without any change: the values the formulas hold now (after an
+                # estimation: the estimates)
+                cur = b.get_beta_values()
+                got = float(b.calculate_init_likelihood())
+                want = ref_sum({nm: cur[nm] for nm in free})
+                rec.case(key, (hist[:step + 1], round(got, 9)), outcome=('initll',))
+                if not close(got, want, 1e-9):
+                    rec.violation('C04|init-likelihood-not-weighted-sum-at-current-values|history',
+                                  f'history {hist[:step + 1]}: calculate_init_likelihood()={got!r}; weighted sum at the values the formulas hold '
+                                  f'{cur} = {want!r}', case, expected=want, observed=got)
+                    return
             elif op in ('init0', 'init_half'):
                 val = 0.0 if op == 'init0' else 0.5
                 b.change_init_values({nm: val for nm in b.free_beta_names})
@@ -335,6 +347,12 @@ def history_list(tier):
             if h[0] not in ('new', 'scale', 'addcol') or h[-1] not in ('ll', 'sim') or 'new' not in h:
                 continue
             if not ({'scale', 'addcol'} & set(h)) or h.count('remove') > 1 or h.count('new') > 2:
+                continue
+            out.append(list(h))
+    # the likelihood at the values the formulas hold, asked for after estimations / changes of values
+    for n in range(2, 5):
+        for h in itertools.product(['new', 'boot', 'init_half', 'initll', 'll', 'remove'], repeat=n):
+            if h[0] != 'new' or h[-1] != 'initll' or h.count('boot') > 1 or h.count('remove') > 1 or h.count('new') > 1:
                 continue
             out.append(list(h))
     if tier == 'quick':
